@@ -138,6 +138,22 @@ func taskYield(site int) {
 	rawRead4(pipes[t+1].r, &b)
 }
 
+// taskYieldForced yields whether or not the site is enabled.
+//
+//go:norace
+func taskYieldForced(site int) {
+	if !sh.active || sh.cur < 0 {
+		return
+	}
+	t := sh.cur
+	var b [4]byte
+	b[0] = msgYield
+	b[1] = byte(t)
+	b[2] = byte(site)
+	rawWrite4(pipes[0].w, &b)
+	rawRead4(pipes[t+1].r, &b)
+}
+
 // taskWaitStart blocks a freshly started task until it first receives the baton.
 //
 //go:norace
